@@ -4,18 +4,27 @@
 # and runs one property's check.
 set -u
 export GOFLAGS=-mod=mod GOPROXY=off GOSUMDB=off GOTOOLCHAIN=local
-cd /verif/harness || exit 2
-mkdir -p /verif/.work/bin
-cp /repo/go.sum ./go.sum 2>/dev/null
+BASE=$(cd "$(dirname "$0")" && pwd)      # /verif, or a snapshot of it (vp run)
+REPO=${VERIF_REPO:-/repo}                # tree under test (vp run --with-repo: VERIF_REPO=$VP_RUN_REPO)
+export VERIF_DIR=$BASE
+cd "$BASE/harness" || exit 2
+mkdir -p "$BASE/.work/bin"
+cp "$REPO/go.sum" ./go.sum 2>/dev/null
+MODFLAG=""
+if [ "$REPO" != /repo ]; then
+  sed "s#=> /repo#=> $REPO#" go.mod > "$BASE/.work/go.alt.mod"
+  cp "$REPO/go.sum" "$BASE/.work/go.alt.sum"
+  MODFLAG="-modfile=$BASE/.work/go.alt.mod"
+fi
 RACE_PROPS=" C07 C12 C15 C16 "
 CHECKPTR_PROPS=" C03 C18 "
 build() { # $1 = plain|race
   if [ "$1" = race ]; then
-    go build -race -tags verif -o /verif/.work/bin/vcheck-race ./cmd/vcheck
+    go build $MODFLAG -race -tags verif -o "$BASE/.work/bin/vcheck-race" ./cmd/vcheck
   elif [ "$1" = checkptr ]; then
-    go build -gcflags=all=-d=checkptr -tags verif -o /verif/.work/bin/vcheck-checkptr ./cmd/vcheck
+    go build $MODFLAG -gcflags=all=-d=checkptr -tags verif -o "$BASE/.work/bin/vcheck-checkptr" ./cmd/vcheck
   else
-    go build -tags verif -o /verif/.work/bin/vcheck ./cmd/vcheck
+    go build $MODFLAG -tags verif -o "$BASE/.work/bin/vcheck" ./cmd/vcheck
   fi
 }
 case "${1:-}" in
@@ -26,16 +35,16 @@ case "${1:-}" in
     exit 0 ;;
   replay)
     build plain || exit 2
-    exec /verif/.work/bin/vcheck -replay "$2" ;;
+    exec "$BASE"/.work/bin/vcheck -replay "$2" ;;
 esac
 PROP="$1"; TIER="${2:-${VERIF_TIER:-quick}}"
 if [[ "$RACE_PROPS" == *" $PROP "* ]]; then
   build race || { echo "INCONCLUSIVE property=$PROP harness race build failed against /repo"; exit 2; }
-  exec /verif/.work/bin/vcheck-race -prop "$PROP" -tier "$TIER"
+  exec "$BASE"/.work/bin/vcheck-race -prop "$PROP" -tier "$TIER"
 elif [[ "$CHECKPTR_PROPS" == *" $PROP "* ]]; then
   build checkptr || { echo "INCONCLUSIVE property=$PROP harness checkptr build failed against /repo"; exit 2; }
-  exec /verif/.work/bin/vcheck-checkptr -prop "$PROP" -tier "$TIER"
+  exec "$BASE"/.work/bin/vcheck-checkptr -prop "$PROP" -tier "$TIER"
 else
   build plain || { echo "INCONCLUSIVE property=$PROP harness build failed against /repo"; exit 2; }
-  exec /verif/.work/bin/vcheck -prop "$PROP" -tier "$TIER"
+  exec "$BASE"/.work/bin/vcheck -prop "$PROP" -tier "$TIER"
 fi
